@@ -251,6 +251,10 @@ pub fn gen_program(r: &mut Rng, max_q: usize, with_nonunitary: bool) -> Program 
         match k {
             0..=3 => {
                 if let Some(c) = gen_builtin_call(r, &qubits, &regs, &[]) {
+                    if r.chance(1, 8) {
+                        // the same statement twice in a row (two statements, each to be executed)
+                        stmts.push(c.clone());
+                    }
                     stmts.push(c);
                 }
             }
